@@ -895,10 +895,12 @@ func main() {
 	}
 	defer os.RemoveAll(tmpdir)
 
-	nBases, perBase, nGarbage, truncAll := 60, 32, 300, 3
+	nBases, perBase, nGarbage, truncAll := 40, 24, 200, 2
+	run.Shard = 125 // parsing the case terms dominates the Coq side; 12 shards evaluate in parallel
 	timeout := 10 * time.Second
 	if args.Tier == "thorough" {
 		nBases, perBase, nGarbage, truncAll = 500, 60, 4000, 25
+		run.Shard = 400
 	}
 
 	var cases []*fcase
